@@ -15,6 +15,8 @@ import numpy as np  # noqa: E402
 import common  # noqa: E402
 import mps_gen as G  # noqa: E402
 import c07  # noqa: E402
+import c09_addblocks  # noqa: E402
+import c09_swapsign  # noqa: E402
 from common import coq_lit, Nat  # noqa: E402
 
 TOL = 5e-9
@@ -585,9 +587,12 @@ def inf_segs(rng, L, dims):
 def main(ctx):
     rng = ctx.rng
     script = 'c09_impl.py'
-    ctx.proof = common.check_proofs('C09')
+    ctx.proof = common.check_proofs('C09', extra_targets=['Model/MpsAddCheck.vo', 'Model/SwapSign.vo'])
     mult = 1 if ctx.proof.ok else 3
     SI = c07.get_siteinfo(script)
+    import random as _random
+    n_addblocks = c09_addblocks.add_blocks_stream(ctx, script, _random.Random(ctx.seed * 7919 + 909), ctx.pick(120, 300) * mult) or 0
+    n_swapsign = c09_swapsign.swap_sign_stream(ctx, script, _random.Random(ctx.seed * 7919 + 910)) or 0
     nrng = np.random.default_rng(ctx.seed * 7919 + 9)
     nfin = ctx.pick(170, 1700) * mult
     ninf = ctx.pick(110, 1100) * mult
@@ -714,10 +719,10 @@ def main(ctx):
             ctx.fail('correspondence', what, meta[b])
         for _ in lits:
             ctx.count(name, len(ctx._distinct), nontrivial=False)
-    ctx.cov['traces_validated_against_impl'] = len(perm_lits) + len(form_lits)
+    ctx.cov['traces_validated_against_impl'] = len(perm_lits) + len(form_lits) + n_addblocks + n_swapsign
     ctx.cov['input_distribution'] = hist
     ctx.assumptions += [
-        'C09 model: permutation loop and structure operations on labels/exponents/dimensions; tensor contents, SVD splits, compression and add are oracle-checked only',
+        'C09 model: permutation loop and structure operations on labels/exponents/dimensions; block structure of add (Model/MpsAdd.v, stream add-blocks: integer tensors, trivial charges, canonical_form_finite stubbed); other tensor contents, SVD splits, compression and the canonicalisation inside add are oracle-checked only',
         'C09 oracle: dense states in the stored local basis (site operator matrices taken from the site classes, which C12 checks); fermionic signs of site permutations computed from occupation parities; '
         'operators whose Jordan-Wigner string is applied through bond charges are compared up to the documented global sign; compression is checked against the angle bound sum arcsin sqrt(eps_i); '
         'infinite states through reduced density matrices from the transfer matrix of explicitly transformed unit-cell tensors',
